@@ -3,6 +3,7 @@
 package c11
 
 import (
+	"reflect"
 	"testing"
 
 	"github.com/cloudflare/circl/internal/zzverif/lib"
@@ -150,4 +151,94 @@ func TestVerifKeyPairs(t *testing.T) {
 		}
 	})
 	_ = kem.ErrTypeMismatch
+	scribbleReturned(mon)
+}
+
+// scribbleReturned: byte slices a key hands out (MarshalBinary, Seed, Bytes,
+// and public keys that ARE byte slices, e.g. ed25519 / ed448) belong to the
+// caller: overwriting them must not change the key - its encoding, what
+// Public() returns next, and the signatures / shared secrets it produces.
+func scribbleReturned(mon string) {
+	lib.Mandatory("pairs:returned-slices-scribbled")
+	scrib := func(v reflect.Value) bool {
+		if !v.IsValid() {
+			return false
+		}
+		if v.Kind() == reflect.Interface {
+			v = v.Elem()
+		}
+		if !v.IsValid() || v.Kind() != reflect.Slice || v.Type().Elem().Kind() != reflect.Uint8 || v.Len() == 0 {
+			return false
+		}
+		for i := 0; i < v.Len(); i++ {
+			v.Index(i).SetUint(uint64(0xEE ^ byte(i)))
+		}
+		return true
+	}
+	handOuts := func(obj any) int {
+		n := 0
+		v := reflect.ValueOf(obj)
+		for _, name := range []string{"MarshalBinary", "Seed", "Bytes", "Public", "MarshalBinaryCompress"} {
+			m := v.MethodByName(name)
+			if !m.IsValid() || m.Type().NumIn() != 0 || m.Type().NumOut() == 0 {
+				continue
+			}
+			var outs []reflect.Value
+			if pn := lib.Try("scribble:"+name, nil, func() { outs = m.Call(nil) }); pn != nil {
+				continue
+			}
+			if scrib(outs[0]) {
+				n++
+			}
+		}
+		return n
+	}
+	for _, s := range signschemes.All() {
+		name := s.Name()
+		r := lib.NewRng("c11/scribble/sign/"+name, 0)
+		seed := r.Bytes(s.SeedSize())
+		msg := r.Bytes(33)
+		pk, sk := s.DeriveKey(seed)
+		encPk, _ := pk.MarshalBinary()
+		encSk, _ := sk.MarshalBinary()
+		sig := s.Sign(sk, msg, nil)
+		n := handOuts(sk) + handOuts(pk)
+		lib.CountN("pairs:returned-slices-scribbled", n)
+		lib.CaseS("scribble-sign", name)
+		nowSk, _ := sk.MarshalBinary()
+		nowPk, _ := pk.MarshalBinary()
+		var pubNow []byte
+		if p, ok := sk.Public().(sign.PublicKey); ok {
+			pubNow, _ = p.MarshalBinary()
+		}
+		sig2 := s.Sign(sk, msg, nil)
+		fresh, _ := s.UnmarshalBinaryPublicKey(encPk)
+		if !lib.Eq(nowSk, encSk) || !lib.Eq(nowPk, encPk) || !lib.Eq(pubNow, encPk) || fresh == nil || !s.Verify(fresh, msg, sig2, nil) || !s.Verify(pk, msg, sig, nil) {
+			lib.Violation("C11:key-changed-by-writing-to-returned-slice:"+name, mon, lib.D("scheme", name,
+				"private_encoding_changed", !lib.Eq(nowSk, encSk), "public_encoding_changed", !lib.Eq(nowPk, encPk), "public_of_private_changed", !lib.Eq(pubNow, encPk),
+				"new_signature_verifies", fresh != nil && s.Verify(fresh, msg, sig2, nil)))
+		}
+	}
+	for _, s := range kemschemes.All() {
+		name := s.Name()
+		r := lib.NewRng("c11/scribble/kem/"+name, 0)
+		seed := r.Bytes(s.SeedSize())
+		pk, sk := s.DeriveKeyPair(seed)
+		encPk, _ := pk.MarshalBinary()
+		encSk, _ := sk.MarshalBinary()
+		ct, ss, err := s.EncapsulateDeterministically(pk, r.Bytes(s.EncapsulationSeedSize()))
+		if err != nil {
+			continue
+		}
+		n := handOuts(sk) + handOuts(pk)
+		lib.CountN("pairs:returned-slices-scribbled", n)
+		lib.CaseS("scribble-kem", name)
+		nowSk, _ := sk.MarshalBinary()
+		nowPk, _ := pk.MarshalBinary()
+		got, derr := s.Decapsulate(sk, ct)
+		if !lib.Eq(nowSk, encSk) || !lib.Eq(nowPk, encPk) || derr != nil || !lib.Eq(got, ss) {
+			lib.Violation("C11:key-changed-by-writing-to-returned-slice:"+name, mon, lib.D("scheme", name,
+				"private_encoding_changed", !lib.Eq(nowSk, encSk), "public_encoding_changed", !lib.Eq(nowPk, encPk), "decapsulation_ok", derr == nil && lib.Eq(got, ss)))
+		}
+	}
 }
